@@ -581,6 +581,11 @@ func inProcessLeg(c *core.Ctx) {
 		}
 		cases = append(cases, cs)
 	}
+	for _, cs := range fixedInlineCases(c.Seed) {
+		if c.Only == "" || cs.ID == c.Only {
+			cases = append(cases, cs)
+		}
+	}
 	if len(cases) == 0 {
 		return
 	}
@@ -907,6 +912,11 @@ func cliLeg(c *core.Ctx) {
 			continue
 		}
 		icases = append(icases, cs)
+	}
+	for _, cs := range fixedInlineCLICases(c.Seed) {
+		if c.Only == "" || cs.ID == c.Only {
+			icases = append(icases, cs)
+		}
 	}
 	core.Parallel(len(icases), 16, func(i int) {
 		runInstallCLICase(c, r, srv, icases[i])
